@@ -64,6 +64,11 @@ func ipamConcurrentScenariosB(tier string, cloud bool, b map[string]int) []*Scen
 		s.Weight = 6
 		sc = append(sc, s)
 	}
+	for _, s := range famRecreate(cloud, b, "split") {
+		if strings.Contains(s.Name, "finish+delete") {
+			sc = append(sc, s)
+		}
+	}
 	// lagging informer cache (one preemption less: four threads)
 	lb := map[string]int{}
 	for k, v := range b {
